@@ -40,6 +40,7 @@ TYPES = {
     "bin": {"jrep": "str", "valid": b"YWI="},
     "un": {"jrep": "union", "int": True, "valid": b"auto"},
     "un2": {"jrep": "union", "int": True, "valid": b"a"},
+    "un3": {"jrep": "str", "int": True, "valid": b"1"},
     "idr": {"jrep": "str", "prefixed": True, "valid": b"types2:iab"},
     "lref": {"jrep": "num", "int": True, "valid": b"1"},
     "iid": {"jrep": "str", "prefixed": True, "valid": b"/types2:tgt"},
@@ -342,6 +343,10 @@ def values_for(rng, T, tier, scale):
         pool = [b"5", b"+5", b"05", b"a", b"ab", b"", b" ", b"127", b"128", b"-128", b"-129", b"-1", b"+", b"-", b"0", b"00", b"\xc3\xa9", b"\xf0\x9f\x98\x80",
                 b" 5", b"5 ", b"+0", b"-0", b"1e1", b"0x1", b"01", b"9", b"10"]
         return same(pool + mutated(rng, pool, k(40, 3000), b"0159+- a\n"))
+    if T == "un3":
+        pool = [b"5", b"+5", b"05", b"5.0", b"5.00", b"+5.0", b"5.5", b"5.50", b"100", b"101", b"100.0", b"0", b"-0", b"-1", b"-1.0", b"1.005", b"abcd",
+                b"abcde", b"", b" 5", b"5 ", b"1e1", b"0x10", b"010", b"0.5", b".5", b"5.", b"+", b"-", b"a", b"1234", b"12345", b"99.99", b"+99"]
+        return same(pool + mutated(rng, pool, k(40, 3000), b"0159+-. a"))
     if T == "idr":
         return idr_values(rng)
     if T == "iid":
@@ -530,7 +535,7 @@ class SourceIndep:
     def tag(self, T, vj, tok, bad):
         """narrow tags of the listed findings (known_findings.d/types2.json); anything else is unexpected (None)"""
         srcs = {b.split("=")[0].split(" ")[0] for b in bad}
-        if T in ("u64r", "i64") and srcs <= set(JSTR) and re.match(rb"[ \t\n\r]*[+-]?0[xX0-9]", vj):
+        if T in ("u64r", "i64", "un3") and srcs <= set(JSTR) and re.match(rb"[ \t\n\r]*[+-]?0[xX0-9]", vj):
             return "json-int64-base0"
         if T == "bin" and srcs <= {"ct", "lyb"} and nonzero_pad_bits(vj):
             return "binary-pad-bits"
@@ -775,19 +780,23 @@ class Cmp2(Comp):
 
 
 class Sort2(Comp):
-    """order of two instances of a system-ordered leaf-list of enumeration, bits, binary, string and union type vs the model's sort"""
+    """order of two to four instances of a system-ordered leaf-list of enumeration, bits, binary, string and union type,
+    inserted one by one, vs stable insertion by the model's sort"""
     name = "t2-sort"
     driver = "t_types2"
     slice = "types2"
 
     def gen(self, rng, tier, scale=1.0):
-        L = []
+        L = ["srt\ten\t%s\t%s\t%s" % tuple(hexs(x) for x in p) for p in
+             ((b"blue", b"dark blue", b"red"), (b"dark blue", b"blue", b"red"), (b"7", b"green", b"dark blue"), (b"red", b"7", b"dark blue"))]
         for T in T2_VALUE_TYPES:
             for _ in range(self.n(tier, 60, 4000, scale)):
                 pool = pair_pool(rng, T, 4)
                 for a in pool[:2]:
                     for b in pool:
                         L.append("srt\t%s\t%s\t%s" % (T, hexs(a), hexs(b)))
+                L.append("srt\t%s\t%s" % (T, "\t".join(hexs(x) for x in pool[:3])))
+                L.append("srt\t%s\t%s" % (T, "\t".join(hexs(x) for x in pair_pool(rng, T, 4))))
         return L
 
     def witness(self, line, m, o):
@@ -813,9 +822,9 @@ def rfc_witness(line, o):
         if T == "bin" and nonzero_pad_bits(s) and want != "E" and o.split(" ")[1:] == want.split(" ")[1:] and o.split(" ")[0] == hexs(b64_strip_nl(s)):
             tag = "binary-pad-bits"
         return tag, "value %r of %s: implementation %s, RFC 7950 %s" % (s, T, o, want)
-    a, b = unhex(f[2]), unhex(f[3])
-    ra, rb = rfc_tv(T, a), rfc_tv(T, b)
     if f[0] == "cmp":
+        a, b = unhex(f[2]), unhex(f[3])
+        ra, rb = rfc_tv(T, a), rfc_tv(T, b)
         # the property: two values are equal exactly when their canonical strings are equal - and both equalities of the
         # library (compare callback = first token, lyd_compare_single = SINGLE) must say so
         if ra is None or rb is None:
@@ -832,18 +841,26 @@ def rfc_witness(line, o):
         return tag, "compare of %r and %r on %s: implementation %s, expected %s (canonical strings %r / %r)" % (
             a, b, T, o, want, ra and ra[0], rb and rb[0])
     if f[0] == "srt":
-        if ra is None or rb is None:
+        vals = [unhex(x) for x in f[2:]]
+        if any(rfc_tv(T, x) is None for x in vals):
             want = "E"
         else:
-            # b is inserted after a unless it sorts strictly before it
-            first, second = (b, a) if rfc_sort_key(T, b) < rfc_sort_key(T, a) else (a, b)
-            want = hexs(rfc_tv(T, first)[0]) + " " + hexs(rfc_tv(T, second)[0])
+            # every value is inserted after the last element that is not greater (stable insertion)
+            seq = []
+            for x in vals:
+                kx = rfc_sort_key(T, x)
+                pos = 0
+                for i, y in enumerate(seq):
+                    if not kx < rfc_sort_key(T, y):
+                        pos = i + 1
+                seq.insert(pos, x)
+            want = " ".join(hexs(rfc_tv(T, x)[0]) for x in seq)
         if o == want:
             return None
         tag = None
-        if T == "bin" and want != "E" and (nonzero_pad_bits(a) or nonzero_pad_bits(b)):
+        if T == "bin" and want != "E" and any(nonzero_pad_bits(x) for x in vals):
             tag = "binary-pad-bits"
-        return tag, "sorted insertion of %r then %r on %s: implementation %s, expected %s" % (a, b, T, o, want)
+        return tag, "sorted insertion of %r on %s: implementation %s, expected %s" % (vals, T, o, want)
     return None
 
 
